@@ -9,11 +9,12 @@ import SpVerif.Drive.DocScan
 import SpVerif.Drive.Engine
 import SpVerif.Drive.Callables
 import SpVerif.Drive.Fields
+import SpVerif.Drive.Subclass
 open Lean SpVerif.Drive
 
 /-- every op of every per-property driver module: add `++ <module>Ops` here -/
 def allOps : List (String × (Json → R Json)) :=
-  namingOps ++ conflictsOps ++ replaceOps ++ docScanOps ++ engineOps ++ callablesOps ++ fieldsOps
+  namingOps ++ conflictsOps ++ replaceOps ++ docScanOps ++ engineOps ++ callablesOps ++ fieldsOps ++ subclassOps
 
 def dispatch (op : String) (c : Json) : R Json :=
   match allOps.lookup op with
